@@ -23,6 +23,7 @@ pub struct E1Totals {
     pub samples: Vec<serde_json::Value>,
     pub actions: std::collections::BTreeMap<String, u64>,
     pub capped: Vec<String>,
+    pub audit: serde_json::Value,
 }
 
 pub fn explore_all(rep: &Arc<Reporter>, scns: Vec<Scenario>, dfs: bool) -> E1Totals {
@@ -39,9 +40,11 @@ pub fn explore_all(rep: &Arc<Reporter>, scns: Vec<Scenario>, dfs: bool) -> E1Tot
         samples: vec![],
         actions: Default::default(),
         capped: vec![],
+        audit: serde_json::Value::Null,
     };
     // phase 1: scenarios run concurrently, each single-threaded, with a state cap; phase 2: the
     // ones that hit the cap are re-run from scratch one at a time on all threads (no cap).
+    let all_scns: Vec<Scenario> = scns.clone();
     let queue = std::sync::Mutex::new(scns.into_iter().enumerate().collect::<Vec<_>>());
     let results = std::sync::Mutex::new(vec![]);
     let heavy = std::sync::Mutex::new(vec![]);
@@ -79,6 +82,7 @@ pub fn explore_all(rep: &Arc<Reporter>, scns: Vec<Scenario>, dfs: bool) -> E1Tot
     }
     let mut results = results.into_inner().unwrap();
     results.sort_by_key(|x| x.0);
+    t.audit = canon_audit(rep, &all_scns, &results);
     for (_, name, r, secs) in results {
         t.states += r.states;
         t.transitions += r.transitions;
@@ -101,6 +105,66 @@ pub fn explore_all(rep: &Arc<Reporter>, scns: Vec<Scenario>, dfs: bool) -> E1Tot
     t
 }
 
+/// Self-check of the state de-duplication: small scenarios are explored a second time as a
+/// tree (a state per path, nothing merged) and must produce exactly the terminal logs and
+/// violation keys of the de-duplicated search. Violations found on the way are reported like
+/// any other (they are paths on the real code); a difference without a violation is recorded
+/// in the evidence and printed as a note.
+fn canon_audit(rep: &Arc<Reporter>, scns: &[Scenario], results: &[(usize, String, model::RunResult, f64)]) -> serde_json::Value {
+    if std::env::var("VERIF_E1_NO_AUDIT").is_ok() {
+        return json!({"disabled": true});
+    }
+    let max_states: u64 = std::env::var("VERIF_E1_AUDIT_STATES").ok().and_then(|s| s.parse().ok()).unwrap_or(match rep.tier {
+        Tier::Quick => 130,
+        Tier::Thorough => 700,
+    });
+    let path_cap: usize = match rep.tier {
+        Tier::Quick => 40_000,
+        Tier::Thorough => 1_500_000,
+    };
+    let picked: Vec<(usize, &model::RunResult)> = results.iter().filter(|r| r.2.states <= max_states && !r.2.found).map(|r| (r.0, &r.2)).collect();
+    let queue = std::sync::Mutex::new(picked.clone());
+    let out = std::sync::Mutex::new((0u64, 0u64, 0u64, Vec::<String>::new())); // audited, paths, skipped, mismatches
+    let threads = std::thread::available_parallelism().map(|x| x.get()).unwrap_or(8).min(16);
+    std::thread::scope(|sc| {
+        for _ in 0..threads {
+            sc.spawn(|| loop {
+                let item = queue.lock().unwrap().pop();
+                let (idx, base) = match item {
+                    Some(x) => x,
+                    None => break,
+                };
+                let scn = scns[idx].clone();
+                let name = scn.name.clone();
+                match model::explore(scn, rep.clone(), 1, false, false, Some(path_cap)) {
+                    None => out.lock().unwrap().2 += 1,
+                    Some(r) => {
+                        let mut o = out.lock().unwrap();
+                        o.0 += 1;
+                        o.1 += r.states;
+                        if !r.found && (r.terminal_log_set != base.terminal_log_set || r.viol_keys != base.viol_keys) {
+                            o.3.push(format!(
+                                "{}: tree search found {} terminal logs / keys {:?}, de-duplicated search {} / {:?}",
+                                name,
+                                r.terminal_log_set.len(),
+                                r.viol_keys,
+                                base.terminal_log_set.len(),
+                                base.viol_keys
+                            ));
+                        }
+                    }
+                }
+            });
+        }
+    });
+    let (audited, paths, skipped, mism) = out.into_inner().unwrap();
+    for m in &mism {
+        eprintln!("note: state de-duplication audit: {}", m);
+    }
+    json!({"scenarios_re_explored_without_merging": audited, "paths": paths, "skipped_tree_too_large": skipped,
+           "eligible_max_states": max_states, "mismatches": mism})
+}
+
 pub fn finish_e1(rep: Arc<Reporter>, t: E1Totals, extra: Vec<(&str, serde_json::Value)>, assumptions: Vec<String>) -> i32 {
     let mut c = cov(vec![
         ("states", json!(t.states)),
@@ -116,6 +180,7 @@ pub fn finish_e1(rep: Arc<Reporter>, t: E1Totals, extra: Vec<(&str, serde_json::
         ("scenarios", json!(t.per_scenario)),
         ("exhaustive", json!(t.capped.is_empty())),
         ("scenarios_stopped_at_state_cap", json!(t.capped)),
+        ("deduplication_audit", t.audit.clone()),
         ("explanation", json!("every state is the real ldap3 connection after a history of scheduler/server/network/clock/fault actions; every transition re-executes the history on the real code (so each transition is a trace validated against the implementation); states are de-duplicated by a digest of all observable state; search by stateright")),
     ]);
     for (k, v) in extra {
